@@ -339,9 +339,46 @@ def lemmas():
     return out
 
 
+def wrapped_equals_unwrapped():
+    """Statement: wrapped coordinates with periodic flags give the same numbers as unwrapped ones whenever no displacement
+    exceeds half a box length.  On remove_pbc's contract (C02.pbc_spec_row): if x_w(t) = x_u(t) + sum_k z_k(t) p_k H[k,:] with
+    integer z, then D_w = D_u + sum_k t_k p_k H[k,:] (t = z(n1) - z(n0)), and if every periodic fractional component of D_u
+    is in (-1/2, 1/2) then remove_pbc(D_w) = D_u — so every pair quantity, being a function of the displacement only, coincides.
+    One rounding lemma (SMT, fresh variables) + one rational identity per mask (ring normaliser, the lemma as rewrite)."""
+    import itertools
+
+    from pyvc import solve
+    from pyvc.vc import ObResult
+    from contracts.C02 import _mat, _sum as _s2, _vecmat
+    half = sv.to_frac(0.5)
+    a, sI = sv.real("a"), sv.integer("s")
+    obs = []
+    ob = ObResult("C06:lemma:rint(a+s)=s-for-integer-s-and-|a|<1/2")
+    ob.add(solve.prove([], sv.zb(sv.implies(sv.and_(sv.cmp("<", a, half), sv.cmp(">", a, sv.neg(half))), sv.cmp("==", sv.rint(sv.add(a, sI)), sI))), 20))
+    obs.append(ob.finish().as_dict())
+
+    class _C:      # the two symbol constructors _mat needs
+        real = staticmethod(sv.real)
+    for d in (2, 3):
+        Hm = _mat(_C, "H", d, "general")
+        det, G = _inv_spec(Hm, d)
+        Du = [sv.real(f"Du_{c}") for c in range(d)]
+        t = [sv.integer(f"t_{k}") for k in range(d)]
+        m = _vecmat(Du, G, d)
+        for pm in itertools.product((0, 1), repeat=d):
+            Dw = [sv.add(Du[c], _s2([sv.mul(sv.mul(t[k], pm[k]), Hm[k][c]) for k in range(d)])) for c in range(d)]
+            got = pbc_spec_row(Dw, Hm, G, list(pm), d)
+            rw = [(sv.rint(sv.add(m[k], t[k])), t[k]) for k in range(d) if pm[k] == 1]
+            goal = sv.and_(*[sv.cmp("==", got[c], Du[c]) for c in range(d)])
+            ob = ObResult(f"C06:wrapped=unwrapped[d={d}/ppp={''.join(map(str, pm))}]:remove_pbc(D_u+lattice-shift)=D_u-within-half-a-cell")
+            ob.add(solve.prove([sv.zb(sv.cmp("!=", det, 0))], sv.zb(goal), 20, {"rewrites": rw, "ring_only": True}))
+            obs.append(ob.finish().as_dict())
+    return obs
+
+
 def extra_checks(tier, seed, repo):
     from pyvc.vc import prove_lemmas
-    return {"obligations": prove_lemmas("C06", lemmas())}
+    return {"obligations": prove_lemmas("C06", lemmas()) + wrapped_equals_unwrapped()}
 
 
 # ------------------------------------------------------------------------------------------------------
